@@ -36,6 +36,67 @@ def run(ctx, rep):
     zip_rule_everywhere(prog, rep, rule="R01.3", floor=3)
     c14.check_roles(prog, rep)  # glyph colours reach the parent through fill_contiguous / fill_solid with the same roles
     image_paths(prog, rep)
+    try:
+        target_independent(prog, rep)
+    except Exception as e:
+        import traceback; traceback.print_exc()
+        rep.fail("R01.7", "engine", "target independence analysis crashed: %r" % (e,), status="undecided")
+
+
+def target_independent(prog, rep, rule="R01.7"):
+    """R01.7 what a drawable sends to the target does not depend on the target's size: no `draw` / `draw_styled` /
+    text or image renderer (nor a closure or a helper new to the tree working for one) asks the target — a value of the
+    DrawTarget-bounded type parameter — for its `bounding_box()` / `size()`.  Clipping is the target's business (the
+    adapters and drivers, C03); a renderer that stops at "the last visible row" or skips "off-screen" parts decides
+    visibility a second time, with its own off-by-one, and the draw_iter-only, native and pixels() images differ."""
+    DRAWT = ("embedded_graphics_core::drawable::Drawable", "embedded_graphics::primitives::styled::StyledDrawable",
+             "embedded_graphics::text::renderer::TextRenderer", "embedded_graphics_core::image::ImageDrawable")
+    DT = "embedded_graphics_core::draw_target::DrawTarget"
+    roots = [f for f in prog.fns.values() if f.body and f.impl and prog.impls[f.impl].get("trait") in DRAWT and "::tests" not in f.id and "mock_display" not in f.id]
+    fam = []
+    for f in roots:
+        fam.append(f)
+        fam.extend(prog.new_helpers_of(f))
+    seen, i = set(), 0
+    while i < len(fam):
+        g = fam[i]
+        i += 1
+        if g.id in seen:
+            continue
+        seen.add(g.id)
+        fam.extend(c for c in prog.closures_of.get(g.id, []) if c.id not in seen)
+    def dt_params(g):
+        r = g.root_fn()
+        out = set()
+        for b in (r.d.get("bounds") or []) + ((prog.impls[r.impl].get("bounds") or []) if r.impl else []):
+            if isinstance(b, dict) and b.get("trait") == DT and isinstance(b.get("self"), dict) and "param" in b["self"]:
+                out.add(b["self"]["param"])
+            elif isinstance(b, str) and ": " in b and DT.split("::")[-1] in b:
+                out.add(b.split(":")[0].strip())
+        return out
+    n, bad = 0, []
+    for g in [prog.fns[x] for x in seen if x in prog.fns]:
+        if not g.body:
+            continue
+        n += 1
+        dts = None
+        for b in g.body["blocks"]:
+            t = b["t"]
+            if not (t and t["k"] == "call" and t["f"].get("name") in ("bounding_box", "size") and t["args"]):
+                continue
+            a0 = (t["f"].get("args") or [None])[0]
+            if not (isinstance(a0, dict) and "param" in a0):
+                continue
+            if dts is None:
+                dts = dt_params(g)
+            if a0["param"] in dts or not dts:
+                bad.append((g, "%s asks the draw target (%s) for its %s()" % (g.path.split("::")[-1] if g.kind != "closure" else g.root_fn().path.split("::")[-1] + "::{closure}", a0["param"], t["f"]["name"]), t.get("sp", "")))
+    rep.floor(rule, "renderer functions", n, 18)
+    if bad:
+        for g, why, sp in bad[:3]:
+            rep.fail(rule, "target-independent:" + g.root_fn().key(), why + ": the image sent to the target must not depend on the target's size", at=sp or g.span, fn=g.path)
+    else:
+        rep.ok(rule, "target-independent", detail={"functions": n})
 
 
 def triangle(prog, rep):
